@@ -22,11 +22,21 @@ type replyResult struct {
 // "send on closed channel" panic class structurally unreachable.
 type replyRegistry struct {
 	m *xsync.MapOf[[4]byte, chan replyResult]
+
+	// data marks the keys registered by DATA transactions (registerData). A data transaction is
+	// completed only by a data message or a Reject.req, so route refuses to hand it any other
+	// message: a control response that merely reuses its System Bytes is a MISS (the recv loop then
+	// answers it Reject(TransactionNotOpen), E37 §8.3.20) and can never occupy the cap-1 channel
+	// slot the genuine reply needs.
+	data *xsync.MapOf[[4]byte, struct{}]
 }
 
 // newReplyRegistry returns an initialised replyRegistry ready for use.
 func newReplyRegistry() replyRegistry {
-	return replyRegistry{m: xsync.NewMapOf[[4]byte, chan replyResult]()}
+	return replyRegistry{
+		m:    xsync.NewMapOf[[4]byte, chan replyResult](),
+		data: xsync.NewMapOf[[4]byte, struct{}](),
+	}
 }
 
 // register allocates a buffered reply channel for key, stores it, and returns
@@ -39,10 +49,20 @@ func (r replyRegistry) register(key [4]byte) chan replyResult {
 	return ch
 }
 
+// registerData is register for a DATA transaction: route will deliver only a data message or an
+// error (a peer Reject) to it. The mark is stored before the channel so a concurrent route never
+// sees the channel without it.
+func (r replyRegistry) registerData(key [4]byte) chan replyResult {
+	r.data.Store(key, struct{}{})
+
+	return r.register(key)
+}
+
 // deregister removes the channel associated with key from the registry.
 // Called by the sender as a deferred cleanup — the channel is NOT closed here.
 func (r replyRegistry) deregister(key [4]byte) {
 	r.m.Delete(key)
+	r.data.Delete(key)
 }
 
 // route delivers res to the waiting sender for key using a non-blocking send.
@@ -53,6 +73,15 @@ func (r replyRegistry) route(key [4]byte, res replyResult) bool {
 	ch, ok := r.m.Load(key)
 	if !ok {
 		return false
+	}
+
+	// A data transaction takes only a data message or an error: anything else is not for it.
+	if res.err == nil && res.msg != nil {
+		if _, isData := res.msg.(*DataMessage); !isData {
+			if _, dataOnly := r.data.Load(key); dataOnly {
+				return false
+			}
+		}
 	}
 
 	select {
